@@ -660,6 +660,21 @@ class FakeNumpy:
         return k
 
     @staticmethod
+    def sign(a):
+        # -1, 0 or +1 per entry: a factor that VANISHES where the entry is exactly zero (see the `sign-scale` event in Arr._bin)
+        if isinstance(a, (int, float)) and not isinstance(a, bool):
+            return (a > 0) - (a < 0)
+        a = as_arr(a)
+        # the slice whose sign is taken is only inspected (a sign convention), not used as a piece of the tensor
+        v_, n_ = a, 0
+        while isinstance(v_, Arr) and n_ < 6:
+            v_.tags['inspected_only'] = True
+            if not v_.parents or v_.origin not in ('real', 'getitem', 'imag', 'abs'):
+                break
+            v_, n_ = (v_.parents[0], n_ + 1) if v_.origin != 'getitem' else (None, n_)
+        return Arr(a.shape, a.legs, 'real' if a.dt != 'int' else 'int', None, {'sign_of': a}, 'sign', parents=(a,))
+
+    @staticmethod
     def take(a, indices, axis=None, out=None, mode='raise'):
         # a[..., indices, ...] along one axis.  mode='clip' / 'wrap' differ from indexing exactly where it matters for index sets given by a caller: negative
         # (counted from the end) and out-of-range entries are silently mapped to other positions
